@@ -51,16 +51,28 @@ PwVOYxWF6+RPoRclcusjLpOHxMtqKAo7WdE7wXl6b2dl7ejxLXXL3wIBAg==
 DH1032_P = int('8b9d053b15a7da6753c9146194abb78902db8a37c07d38b3bbea5965b6725f756411259bbef2ff22bfd0ba92b1fe17b1fa3b9a547e'
                '0813d228cc3226651b5fb8de65a44cdf847b753f1f1047d9a0de6d30fcda9929d79b19ef3f054e631585ebe44fa1172572eb232e93'
                '87c4cb6a280a3b59d13bc1797a6f6765ede8f12d75cbdf', 16)
+# A 1025-bit group whose prime is the first prime above 2**1024 (2**1024 + 0x283, 129 bytes, top byte 0x01): the
+# shared secret Z = Y^x mod p is below 2**1024 with probability 1 - 2**-1014, i.e. it (practically) always has a
+# leading zero byte that RFC 5246 8.1.2 requires to be stripped before it is used as the premaster secret.
+# (p is prime but not a safe prime; neither stack checks that in the handshake.)
+DHLZ_P = 2 ** 1024 + 0x283
+DHLZ_PEM = '''-----BEGIN DH PARAMETERS-----
+MIGHAoGBAQAAAAAAAAAAAAAAAAAAAAAAAAAAAAAAAAAAAAAAAAAAAAAAAAAAAAAA
+AAAAAAAAAAAAAAAAAAAAAAAAAAAAAAAAAAAAAAAAAAAAAAAAAAAAAAAAAAAAAAAA
+AAAAAAAAAAAAAAAAAAAAAAAAAAAAAAAAAAAAAAAAAAAAAAAAAAKDAgEC
+-----END DH PARAMETERS-----
+'''
+DH_FIXED = {'odd1032': ('dh1032-fixed.pem', DH1032_PEM, DH1032_P), 'lz1025': ('dhlz1025-fixed.pem', DHLZ_PEM, DHLZ_P)}
 DH_DIR = '/tmp/verif-c07'
 
 
 def dh_file(kind):
     os.makedirs(DH_DIR, exist_ok=True)
-    if kind == 'odd1032':
-        path = os.path.join(DH_DIR, 'dh1032-fixed.pem')
+    if kind in DH_FIXED:
+        path = os.path.join(DH_DIR, DH_FIXED[kind][0])
         if not os.path.exists(path):
             with open(path + '.tmp%d' % os.getpid(), 'w') as f:
-                f.write(DH1032_PEM)
+                f.write(DH_FIXED[kind][1])
             os.replace(path + '.tmp%d' % os.getpid(), path)
         return path
     return os.path.join(DH_DIR, 'ffdhe2048.pem')
@@ -195,8 +207,8 @@ def tl_settings(cfg):
         from tlslite.handshakesettings import TLS13_PERMITTED_GROUPS
         d['eccCurves'] = [c for c in d['eccCurves'] if c in TLS13_PERMITTED_GROUPS]
     s = U.mk_settings(d)
-    if cfg.get('dh') == 'odd1032':
-        s.dhParams = (2, DH1032_P)       # the server's own group when the client names no RFC 7919 group
+    if cfg.get('dh') in DH_FIXED:
+        s.dhParams = (2, DH_FIXED[cfg['dh']][2])       # the server's own group when the client names no RFC 7919 group
     if cfg.get('tickets'):
         s.ticketKeys = [bytearray(b'\x07' * 32)]
     return s
